@@ -49,8 +49,13 @@ pub(crate) enum SectionKind<'data> {
 
 /// Rules governing how input sections should be mapped to output sections.
 pub(crate) struct SectionRules<'data> {
-    /// Rules by the hash of the first 4 bytes of the name.
-    rules: HashTable<SectionRule<'data>>,
+    /// Rules by the hash of the first 4 bytes of the name. Each rule is stored together with its
+    /// position in the list of rules that we were built from.
+    rules: HashTable<(usize, SectionRule<'data>)>,
+
+    /// Rules for which the first 4 bytes of matching names aren't fixed, either because the
+    /// pattern is shorter than that, or because it has a wildcard there. In rule order.
+    unkeyed_rules: Vec<(usize, SectionRule<'data>)>,
 }
 
 /// Determines how a section name pattern is matched against input section names.
@@ -67,12 +72,23 @@ pub(crate) enum SectionNameMatcher<'data> {
     Glob(&'data [u8], Pattern),
 }
 
-/// Return the literal byte prefix of this matcher, used for hash table keying.
 impl<'data> SectionNameMatcher<'data> {
-    fn prefix_bytes(&self) -> &[u8] {
+    /// Returns the hash of the first 4 bytes of every name that this matcher can match, or `None`
+    /// if those bytes aren't fixed.
+    fn prefix_hash(&self) -> Option<u64> {
         match self {
-            Self::Exact(n) => n.as_ref(),
-            Self::Prefix(n) | Self::Glob(n, _) => n,
+            Self::Exact(n) => section_name_prefix_hash(n),
+            Self::Prefix(n) => section_name_prefix_hash(n),
+            Self::Glob(pattern, _) => {
+                let prefix = pattern.get(..4)?;
+                if prefix
+                    .iter()
+                    .any(|b| matches!(b, b'*' | b'?' | b'[' | b'\\'))
+                {
+                    return None;
+                }
+                section_name_prefix_hash(prefix)
+            }
         }
     }
 }
@@ -434,14 +450,18 @@ impl<'data> SectionRules<'data> {
     fn from_rules(rules: &[SectionRule<'data>]) -> Self {
         let mut map = SectionRules {
             rules: HashTable::with_capacity(rules.len() * RULE_TABLE_CAPACITY_MULTIPLIER),
+            unkeyed_rules: Vec::new(),
         };
-        for rule in rules {
-            let hash = section_name_prefix_hash(rule.name_matcher.prefix_bytes())
-                .expect("Prefixes of length less than 4 not yet supported");
+        for (index, rule) in rules.iter().enumerate() {
+            let Some(hash) = rule.name_matcher.prefix_hash() else {
+                map.unkeyed_rules.push((index, rule.clone()));
+                continue;
+            };
 
-            map.rules.insert_unique(hash, rule.clone(), |existing| {
-                section_name_prefix_hash(existing.name_matcher.prefix_bytes()).unwrap_or(0)
-            });
+            map.rules
+                .insert_unique(hash, (index, rule.clone()), |(_, existing)| {
+                    existing.name_matcher.prefix_hash().unwrap_or(0)
+                });
         }
 
         map
@@ -458,11 +478,23 @@ impl<'data> SectionRules<'data> {
             return SectionRuleOutcome::Discard;
         }
 
-        if let Some(hash) = section_name_prefix_hash(section_name)
-            && let Some(rule) = self
-                .rules
-                .find(hash, |rule| rule.matches(section_name, file_name))
-        {
+        // The first rule that matches wins, so where several match, we take the one that was
+        // earliest in the list of rules.
+        let keyed = section_name_prefix_hash(section_name).and_then(|hash| {
+            self.rules
+                .iter_hash(hash)
+                .filter(|(_, rule)| rule.matches(section_name, file_name))
+                .min_by_key(|(index, _)| *index)
+        });
+        let unkeyed = self
+            .unkeyed_rules
+            .iter()
+            .find(|(_, rule)| rule.matches(section_name, file_name));
+        let first = match (keyed, unkeyed) {
+            (Some(a), Some(b)) => Some(if a.0 < b.0 { a } else { b }),
+            (a, b) => a.or(b),
+        };
+        if let Some((_, rule)) = first {
             return rule.outcome;
         }
 
